@@ -35,7 +35,12 @@ MANIFEST = {
     "technique": "Lean 4 theorems about a hand-written model of ==/hash/signature on problog.logic terms + exact "
                  "correspondence on bounded-exhaustive and random term pairs (constructors and parser) + the laws "
                  "evaluated on the real objects",
-    "text": "Lean theorems on the model (classes Term, Var, Constant, Not, And, Or, Clause; names of Var/Constant "
+    "text": "State machine of Term's memo fields (hash, signature, list length, printed form) under hash/signature/str/"
+            "functor-assignment histories (lean/ProbLogModel/TermCache.lean): invariant 'every filled memo field holds "
+            "the recomputed value' proved for every history (C18_cache_history), so a renamed term observes like a fresh "
+            "one; tied by comparing which memo fields are filled after every operation of random histories (model vs "
+            "object) plus the fresh-term oracle; the pre-repair setter is refuted in Lean and on the object. "
+            "Lean theorems on the model (classes Term, Var, Constant, Not, And, Or, Clause; names of Var/Constant "
             "never equal to the printed form of a compound term): == is reflexive, symmetric and transitive; "
             "equality decided by Term.__eq__ implies equal hash keys once Not.__hash__ ignores the functor "
             "(proposed patch); for ground trees of plain Terms with quote-free functors == coincides with "
@@ -410,6 +415,9 @@ def run(ctx):
     ctx.rule = ("a case = one ordered pair of terms (model correspondence + pairwise laws) or one triple of the bounded "
                 "universe (transitivity through the real equality matrix); non-trivial = the two terms are not the same spec")
     ctx.proof_phase(MODULE, THEOREMS, refutations=REFUTATIONS)
+    ctx.proof_phase("ProbLogProofs.Properties.C18Cache", ["ProbLogProofs.C18.C18_cache_inv_init", "ProbLogProofs.C18.C18_cache_inv_step",
+                                                          "ProbLogProofs.C18.C18_cache_history"],
+                    refutations=["ProbLogProofs.C18.C18_cache_old_setter_refuted"])
     drv = ctx.driver("Drivers.C18")
     variant = "fix" if hash(Not("\\+", Term("a"))) == hash(Not("not", Term("a"))) else "cur"
     ctx.notes.append("Not.__hash__ variant of the implementation: %s" % variant)
@@ -592,6 +600,54 @@ def run(ctx):
                 report("%s hashed, then .functor = %r: %s" % (pp(s), newf, b),
                        {"terms": [s, ("T", newf, s[2])], "history": ["build", "hash", "set functor %s" % newf, "compare with fresh"]},
                        {"law": "hash", "root": "rename-history", "impl": "Term.functor.setter"})
+
+    # ------------------------------------------------------------------ memo-field state machine (lean/ProbLogModel/TermCache.lean)
+    # random histories of hash / signature / str / functor-assignment: after every operation the set of filled memo
+    # fields of the real object must be the model's, and the final object must hash / print / compare like a fresh term
+    cache_diff = None
+    if drv is not None and not ctx.replay_in:
+        crng = ctx.sub_rng("cache-histories")
+        names = [".", "g", "h2", "_s_f"]           # name id 0 is the list functor
+        H = []
+        for _ in range(ctx.budget(400, 20000)):
+            f0 = crng.randrange(len(names))
+            tail_list = crng.random() < 0.5
+            ops = []
+            for _ in range(crng.randrange(1, 9)):
+                o = crng.choice("hsrf")
+                ops.append(("f", crng.randrange(len(names))) if o == "f" else (o,))
+            H.append((f0, tail_list, ops))
+        hl = ["hist %d %d %s" % (f0, 1 if tl else 0, " ".join("(f %d)" % o[1] if o[0] == "f" else o[0] for o in ops)) for f0, tl, ops in H]
+        model_out = drv.run(hl)
+        for (f0, tl, ops), line, mo in zip(H, hl, model_out):
+            ctx.case("cache:" + line)
+            ctx.count("memo-field history (model vs object, presence after each op)")
+            tail = Term(".", Term("b"), Term("[]")) if tl else Term("[]")
+            a = Term(names[f0], Term("a"), tail)
+            cur, seen = names[f0], []
+            for o in ops:
+                if o[0] == "h":
+                    hash(a)
+                elif o[0] == "s":
+                    a.signature
+                elif o[0] == "r":
+                    str(a)
+                else:
+                    cur = names[o[1]]
+                    a.functor = cur
+                seen.append("".join("1" if x is not None else "0" for x in
+                                    (a._Term__hash, a._Term__signature, a._cache_list_length, a.repr)))
+            if ",".join(seen) != mo and cache_diff is None:
+                cache_diff = (line, "object %s, model %s" % (",".join(seen), mo))
+            fresh = Term(cur, Term("a"), tail)
+            if a == fresh and (hash(a) != hash(fresh) or str(a) != str(fresh) or a.signature != fresh.signature):
+                report("history %s: the object is == a fresh %s but hash/str/signature differ" % (line, fresh),
+                       {"terms": [], "history": line},
+                       {"law": "hash", "root": "rename-history", "impl": "Term.functor.setter"})
+        if cache_diff:
+            ctx.disagree("TermCache model vs problog.logic.Term memo fields", "%s: %s" % cache_diff)
+        ctx.obligation("correspondence: memo-field presence after each op, model = object on %d histories" % len(H),
+                       cache_diff is None, "" if cache_diff is None else "first difference: %s" % (cache_diff,))
 
     if first_diff:
         ctx.disagree("TermEq model vs problog.logic", "%s: %s" % first_diff)
